@@ -231,6 +231,7 @@ theorem keep_estep {s s' : St} (st : EStep s s') : Keep s s' := by
     unfold St.incReg
     exact keep_mapFrames _ s (fun _ => rfl) (fun _ => rfl) (fun _ => rfl) (fun _ => rfl)
   | emit i _ _ _ _ hr => exact keep_push i s hr
+  | branch i _ _ _ _ hr => exact keep_push i s hr
   | incEmit i hw _ _ _ =>
     refine Keep.trans ?_ (keep_push i _ (isRet_of_writes hw))
     unfold St.incReg
